@@ -172,6 +172,7 @@ class World:
         os.makedirs(self.base_env["TMPDIR"], exist_ok=True)
         tempfile.tempdir = self.base_env["TMPDIR"]
         self.saved_environ = dict(os.environ)
+        self.lock_birth = {}
         self.login = VProc(self, "login", "login1", self.base_env)
         self.cur = self.login
         self._set_environ(self.login.env)
@@ -262,11 +263,40 @@ class World:
         self._set_environ(child.env)
         try:
             child.rc = self._dispatch_jade(argv)
+        except ProcessKilled:
+            if self.kill_target is not child:
+                raise  # the whole process tree of this thread dies
+            self._finish_kill(child)
         finally:
             child.done = True
             self.cur = parent
             self._set_environ(parent.env)
         return child
+
+    def kill_here(self, whole_thread=False):
+        """kill -9 of the current virtual process at this very point (called from an effect hook).
+        The file system and the effect log are snapshotted now and restored once the Python stack has unwound,
+        so finally:/except: clauses of the dying process leave no trace."""
+        target = self.cur
+        if whole_thread:
+            while target.parent is not None:
+                target = target.parent
+        self.kill_target = target
+        self.in_observer = True
+        self.kill_snapshot = self.snapshot()
+        raise ProcessKilled()
+
+    def _finish_kill(self, proc):
+        snap, self.kill_snapshot = self.kill_snapshot, None
+        if snap is not None:
+            self.restore(snap)
+        self.in_observer = False
+        self.kill_target = None
+        proc.rc = -9
+        proc.dead = True
+        for c in proc.children:
+            c.dead = True
+        self.record("killed", proc=proc.name)
 
     def user(self, argv, host="login1", env=None):
         """A command typed by the user on a login node; runs to completion on the calling (scheduler) thread."""
@@ -284,6 +314,8 @@ class World:
                 p.rc = self.with_deadline(lambda: self._dispatch_jade(argv))
             else:
                 p.rc = self._dispatch_jade(argv)
+        except ProcessKilled:
+            self._finish_kill(p)
         finally:
             p.done = True
             self.cur = prev
@@ -308,6 +340,8 @@ class World:
                     raise ProcessKilled()
                 p.rc = fn()
             except ProcessKilled:
+                if self.kill_target is p:
+                    self._finish_kill(p)
                 p.rc = -9
                 p.dead = True
             except BaseException as e:  # includes jsym PathAbort: re-raised on the scheduler thread
@@ -766,13 +800,13 @@ class ModelSoftLock:
             return False
         lines = text.split("\n")
         if len(lines) < 2 or not lines[0].strip().isdigit():
-            return w.now - w.lock_birth.get(path, w.now) > 2 if hasattr(w, "lock_birth") else False
+            return w.now - w.lock_birth.get(path, w.now) > 2  # empty/malformed marker older than 2 s
         pid, host = int(lines[0]), lines[1].strip()
         if host != w.cur.host:
             return False
         for p in w.procs + [q for pr in w.procs for q in pr.children]:
             if p.pid == pid:
-                return p.dead
+                return p.dead or p.done  # the owner's pid no longer exists on this host
         return False
 
     @staticmethod
@@ -899,6 +933,8 @@ def _open(file, mode="r", *a, **kw):
 def _os_open(path, flags, *a, **kw):
     if _W is not None and _W.track_files and flags & (os.O_WRONLY | os.O_RDWR | os.O_CREAT):
         _file_effect("write_open", path, mode="os.open")
+    if _W is not None and str(path).endswith(".lock"):
+        _W.lock_birth[str(path)] = _W.now  # a marker created by JADE itself (deliberate deadlock): empty, no owner
     return _REAL["os_open"](path, flags, *a, **kw)
 
 
@@ -953,6 +989,8 @@ def install():
 
 
 World.logging_real = False
+World.kill_target = None
+World.kill_snapshot = None
 World.track_files = False
 World.track_reads = False
 World.deadline_s = 6
